@@ -18,8 +18,13 @@ def run(ctx, prog, facts, tier):
     # fifth condition: 'the player to move has no legal step' is has_move(), which must agree with the offered list
     from . import rules_rep
     rules_rep.check_has_move(ctx, prog)
+    # ... and 'no legal step' hinges on which pieces are frozen: the exact local tables of threat and freezing (C01 clauses)
+    from . import rules_local
+    I3 = inputs.make_interp(prog, fuel=5000000)
+    rules_local.check_threat_tables(ctx, prog, I3, True)
+    rules_local.check_freeze_tables(ctx, prog, I3, True)
     ctx.exhaustive = True
-    ctx.assumptions += ['has_move is shown equivalent to "the offered list is non-empty" (C07.2 clauses); that the list itself is the legal set is C01',
+    ctx.assumptions += ['has_move is shown equivalent to "the offered list is non-empty" (C07.2 clauses); that the list itself is the legal set is C01 (its threat / freezing tables are included here)',
                         'atoms are identified by the dependency footprint and must-literals of the tested bitboard']
     return ('Decision tree of is_terminal extracted by abstract interpretation; the four start-of-turn conditions are '
             'identified by footprint and all 16 x 2 combinations are evaluated against the official order; goal ranks '
